@@ -305,12 +305,13 @@ def callCompiled (fa : Addr) (numArgs flags : Int) : M (Except OpErr Unit) := do
       return .ok ()
   let s ← getS
   let fi := s.frameIndex
+  -- (repaired code: the overflow test precedes `frame := &vm.frames[vm.frameIndex]; vm.frameIndex++`)
+  if fi + 1 > (frameSize : Int) - 1 then
+    return .error .stackOverflow
   -- frame := &(vm.frames[vm.frameIndex])
   if fi < 0 || fi ≥ (frameSize : Int) then
     panic s!"runtime error: index out of range [{fi}] with length {frameSize}"
   modS fun s => { s with frameIndex := fi + 1 }
-  if fi + 1 > (frameSize : Int) - 1 then
-    return .error .stackOverflow
   modS fun s => { s with frames := (s.frames.modify s.curFrame fun f => { f with ip := ip + 2 }) }
   modS fun s => { s with
     frames := s.frames.modify fi.toNat fun f =>
